@@ -354,6 +354,11 @@ def _corpus():
          ('print', num(2)),
          ('if', cond, [('print', num(9)), ('define', 'g', [], [('print', num(8))])], [('print', num(3))]),
          ('call', 'f', [], False), ('call', 'g', [], False)],
+        # a routine defined inside a loop has its own loops: its break must stay inside it
+        [('assign', 'x', num(1)),
+         ('repeat', ('count', num(2)),
+          [('define', 'inner', [], [('repeat', ('count', num(2)), [('break',)]), ('print', num(4))]),
+           ('call', 'inner', [], False), ('break',)])],
         [('assign', 'x', num(1)),
          ('repeat', ('count', num(2)),
           [('define', 'h', ['a'], [('repeat', ('count', num(3)),
